@@ -18,7 +18,14 @@ pub fn format_expr(expr: &SpannedExpr, max_columns: Option<usize>) -> String {
 /// A statement that starts with `-` would be read as the continuation of the previous line
 /// (`a = 1` followed by `-b` is `a = 1 - b`), so such a statement keeps its parentheses.
 pub fn protect_statement_start(statement: String) -> String {
-    if statement.starts_with('-') {
+    // `via`, `into` and `where` are ordinary names, but a line that starts with one of them
+    // reads as the infix operator continuing the previous statement
+    let starts_with_infix_word = ["via", "into", "where"].iter().any(|word| {
+        statement.strip_prefix(word).is_some_and(|rest| {
+            !rest.starts_with(|c: char| c.is_ascii_alphanumeric() || c == '_')
+        })
+    });
+    if statement.starts_with('-') || starts_with_infix_word {
         format!("({})", statement)
     } else {
         statement
